@@ -95,7 +95,14 @@ Fixpoint render (q : qx) : string :=
       | [] => if neg then "1 = 1" else "0 = 1"
       | _ => render a ++ (if neg then " NOT IN (" else " IN (") ++ join_with ", " (map render items) ++ ")"
       end
-  | QCase c t f => "case when " ++ render c ++ " then " ++ render t ++ " else " ++ render f ++ " end"
+  | QCase c t f =>
+      (* SQLBuilder.CASE merges a searched CASE in the ELSE position into the outer one *)
+      "case when " ++ render c ++ " then " ++ render t ++
+      (fix tail (x : qx) : string :=
+         match x with
+         | QCase c2 t2 f2 => " when " ++ render c2 ++ " then " ++ render t2 ++ tail f2
+         | _ => " else " ++ render x ++ " end"
+         end) f
   | QCoalesce l => "coalesce(" ++ join_with ", " (map render l) ++ ")"
   | QMinMax is_max l =>
       (match d, is_max with
